@@ -57,6 +57,9 @@ type Model struct {
 	FP func(s any) string
 	// Inv is checked in every state reached (after New and after each Apply); optional.
 	Inv func(s any, t *Tr)
+	// Probe runs once per newly discovered state; fresh() rebuilds an independent instance in that
+	// state (by replay), so the probe may run destructive experiments (N-step runs, twin runs).
+	Probe func(fresh func() any, t *Tr)
 }
 
 // Step of a path: operation index plus the environment answers it consumed.
@@ -91,6 +94,7 @@ type BFSStats struct {
 	Samples     [][]Step       `json:"-"`
 	WallS       float64        `json:"wall_s"`
 	Frontier    []int          `json:"frontier_sizes,omitempty"`
+	Probes      int64          `json:"state_probes"`
 }
 
 type key [2]uint64
@@ -153,6 +157,30 @@ func BFS(m *Model, opt BFSOptions) *BFSStats {
 		v := &Violation{Scenario: m.Name, Params: m.Params, Choices: EncodePath(path), Failures: t.fails, Notes: append(pathLabels(path), t.notes...)}
 		st.Violations = append(st.Violations, v)
 	}
+	probe := func(path []Step) {
+		if m.Probe == nil {
+			return
+		}
+		t := &Tr{Depth: len(path)}
+		withEnv(t, func() { m.Probe(func() any { return m.build(path) }, t) })
+		st.Probes++
+		if len(t.fails) == 0 {
+			return
+		}
+		k := sigKey(t.fails)
+		st.SigCounts[k]++
+		if sigSeen[k] {
+			return
+		}
+		sigSeen[k] = true
+		t2 := &Tr{Depth: len(path)}
+		withEnv(t2, func() { m.Probe(func() any { return m.build(path) }, t2) })
+		if sigKey(t2.fails) != k {
+			panic("nondeterminism in Mode-S probe of " + m.Name)
+		}
+		st.Violations = append(st.Violations, &Violation{Scenario: m.Name, Params: m.Params, Choices: EncodePath(path), Failures: t.fails,
+			Notes: append(pathLabels(path), t.notes...)})
+	}
 	root := &Tr{}
 	var s0 any
 	withEnv(root, func() {
@@ -165,6 +193,7 @@ func BFS(m *Model, opt BFSOptions) *BFSStats {
 		report(nil, root)
 	}
 	seen[hkey(m.fp(s0))] = struct{}{}
+	probe(nil)
 	frontier := [][]Step{nil}
 	complete := true
 	depth := 0
@@ -217,6 +246,7 @@ func BFS(m *Model, opt BFSOptions) *BFSStats {
 					if _, ok := seen[kk]; !ok || opt.NoPrune {
 						seen[kk] = struct{}{}
 						next = append(next, np)
+						probe(np)
 					}
 					// alternatives of the environment draws beyond the replayed prefix
 					devs := 0
@@ -290,6 +320,9 @@ func ReplayBFS(m *Model, enc []int) ([]Failure, []string) {
 		}
 	}
 	t := m.replayLast(path)
+	if m.Probe != nil {
+		withEnv(t, func() { m.Probe(func() any { return m.build(path) }, t) })
+	}
 	return t.fails, append(pathLabels(path), t.notes...)
 }
 
